@@ -238,6 +238,43 @@ def nls_family(env):
         env.eq(f't* = 0 given as a {form}, clock at 3: affine model reproduces g(x*, u*, 0)', s2.C @ xs + s2.D @ us + s2.c2, g(xs, us, z0))
 
 
+@bounded('C15.NLS.scaling', functions=[f'{DYN}:NLS.A', f'{DYN}:NLS.B', f'{DYN}:NLS.C', f'{DYN}:NLS.D', f'{DYN}:NLS.set_refpoint'])
+def nls_scaling(rng, tier):
+    """real code on BADLY SCALED smooth systems (equations on scales 1e9 and 1e-8 in float64, 1e3 and 1e-5 in float32): A, B, C, D are the
+    partial Jacobians row by row, relative to the size of each row - a small derivative is a derivative, not round-off (a symbolic run
+    of a thresholding rewrite explodes into sign/magnitude paths and ends undecided; this stand-in gives the failing input)"""
+    import torch, pypose as pp
+    N = 6 if tier == 'quick' else 40
+    fails = []; evals = 0; samples = []
+    g = torch.Generator().manual_seed(rng.randrange(1 << 30))
+    for t in range(N):
+        for dt_, scales, tol in ((torch.float64, (1e9, 1e-8), 1e-9), (torch.float32, (1e3, 1e-5), 1e-4)):
+            n, m = 2, rng.randrange(1, 3)
+            S1 = torch.tensor(scales if rng.random() < 0.5 else scales[::-1], dtype=dt_); S2 = torch.tensor(scales[::-1] if rng.random() < 0.5 else scales, dtype=dt_)
+            P = torch.randn(n, n, dtype=dt_, generator=g); Qm = torch.randn(n, m, dtype=dt_, generator=g); H = torch.randn(n, n, dtype=dt_, generator=g)
+            w = torch.randn(n, dtype=dt_, generator=g); v = torch.randn(n, dtype=dt_, generator=g)
+            class Sys(pp.module.NLS):
+                def state_transition(self, x, u, t=None): return S1 * (P @ x + Qm @ u + w * x[0] * x[1]) + t * 0
+                def observation(self, x, u, t=None): return S2 * (H @ x + v * u[0] * u[0]) + t * 0
+            xs = torch.randn(n, dtype=dt_, generator=g); us = torch.randn(m, dtype=dt_, generator=g)
+            s_ = Sys(); s_.set_refpoint(xs, us, torch.tensor(2.0, dtype=dt_))
+            e0 = torch.zeros(m, dtype=dt_); e0[0] = 1
+            want = dict(A=S1[:, None] * (P + w[:, None] * torch.stack([xs[1], xs[0]])[None, :]), B=S1[:, None] * Qm,
+                        C=S2[:, None] * H, D=S2[:, None] * (2 * us[0] * v)[:, None] * e0[None, :])
+            for nm, ref in want.items():
+                got = getattr(s_, nm); evals += 1
+                if got.shape != ref.shape:
+                    fails.append(dict(clause='NLS_jacobian_shape', signature=f'{nm}/{str(dt_).split(".")[-1]}')); continue
+                rowerr = ((got - ref).abs().amax(-1) / ref.abs().amax(-1).clamp(min=1e-300)).max()
+                if float(rowerr) > tol:
+                    fails.append(dict(clause='NLS_jacobians_rowwise_on_badly_scaled_systems', signature=f'{nm}/{str(dt_).split(".")[-1]}', row_relative_error=float(rowerr), scales=list(scales)))
+        if len(fails) > 6: break
+    uniq = {}
+    for f_ in fails: uniq.setdefault((f_['clause'], f_['signature']), f_)
+    return dict(evaluations=evals, distinct_nontrivial=evals, rule='random bilinear/quadratic 2-state systems with row scales 1e9/1e-8 (float64) and 1e3/1e-5 (float32)',
+                bound=f'{N} systems per dtype', failures=list(uniq.values())[:6], samples=samples)
+
+
 @obligation('C15.canary.observation_after_transition', functions=[f'{DYN}:LTI.observation'], canary=True)
 def canary(env):
     dyn = env.load(DYN); T = env.T
